@@ -387,6 +387,8 @@ func init() {
 				w = GenMergeWorkload(r)
 			} else if idx%16 == 15 {
 				w = GenCueImportsWorkload(r)
+			} else if idx%16 == 3 {
+				w = GenFactoriesWorkload(r)
 			} else if r.Chance(2, 3) {
 				EnrichWorkload(r.Fork("enrich"), w, dir)
 			}
